@@ -164,7 +164,12 @@ func init() {
 				cases += lc
 				matches += lm
 				nontrivial += lnt
-				if len(mism) < 200 {
+				// at most three mismatches per pattern, so that the occurrences of one (possibly already listed) defect
+				// cannot use up the room of the report and mask a different one
+				if len(lmis) > 3 {
+					lmis = lmis[:3]
+				}
+				if len(mism) < 3000 {
 					mism = append(mism, lmis...)
 				}
 				if len(samples) < 4 && g.Pid%7 == 3 {
